@@ -51,6 +51,22 @@ def generate(rng, tier):
             i = rng.randrange(len(ys))
             ys[i] = (ys[i] + rng.choice([-1, 1])) & U64
         yield "tagged_tuple_cmp %s %s" % (lst(xs), lst(ys))
+    # the key of one value as written by every writer of the family (32-bit writer, fixed-width
+    # writer and Quick macro at the natural width, in-place add from another stored value)
+    # against Put64 keys of neighbours: a, b near each other on both sides of every boundary;
+    # a0 (the value the slot held before the add) of every other width
+    def near(v):
+        return min(U64, max(0, v + rng.choice([-2, -1, 0, 0, 1, 2])))
+    for _ in range(n_rand):
+        a = rng.choice(pool) if rng.random() < 0.7 else rng.getrandbits(rng.randint(1, 64))
+        a = near(a)
+        b = near(a) if rng.random() < 0.6 else rng.choice(pool)
+        a0 = rng.choice(pool) if rng.random() < 0.8 else rng.getrandbits(rng.randint(1, 63))
+        yield "tagged_keys %d %d %d" % (a, a0, b)
+    for k in list(range(8, 65, 8)) + [23, 24, 31, 32, 33]:
+        for a in ((1 << k) - 1, 1 << (k - 1), (1 << (k - 1)) + 1):
+            for a0 in (0, 100, 70000, 1 << 24, 1 << 40, (1 << 63) - 1):
+                yield "tagged_keys %d %d %d" % (a & U64, a0, (a + 1) & U64)
 
 
 def _sgn(a, b):
@@ -80,7 +96,27 @@ def o_tuple(args, c):
     return None
 
 
-ORACLES_C05 = {"tagged_cmp": o_cmp, "tagged_tuple_cmp": o_tuple}
+def o_keys(args, c):
+    a, b = int(args[0]), int(args[2])
+    if "fault" in c:
+        return "fault=" + c["fault"]
+    want = _sgn(a, b)
+    ref = " ".join("%02x" % x for x in ref_put(a))
+    for w in ("64", "32", "fix", "q", "add"):
+        if "k" + w not in c:
+            continue
+        if int(c["c" + w]) != want:
+            return "key of %d written by writer '%s' (%s) compares %s with the Put64 key of %d, numeric order %d" % (a, w, c["k" + w], c["c" + w], b, want)
+        if _hexnorm(c["k" + w]) != _hexnorm(ref):
+            return "writer '%s' wrote %s for %d, Put64's canonical key is %s: equal values, different bytes" % (w, c["k" + w], a, ref)
+    return None
+
+
+def _hexnorm(h):
+    return h.replace(" ", "").replace("x", "").lower()
+
+
+ORACLES_C05 = {"tagged_cmp": o_cmp, "tagged_tuple_cmp": o_tuple, "tagged_keys": o_keys}
 
 
 def classify(case, m):
@@ -90,6 +126,8 @@ def classify(case, m):
         if ea[:3] == eb[:3] or len(ea) != len(eb):
             return "len%d-vs-len%d" % ((len(ea) - 1) // 2, (len(eb) - 1) // 2)
         return "trivial"
+    if api == "tagged_keys":
+        return "writers-len%d" % ((len(_hexnorm(m.get("k64", ""))) // 2))
     return "tuple"
 
 
@@ -202,6 +240,8 @@ def o_rt_c04(args, c):
         return "fault=" + c["fault"]
     if c["put"] != hexs(ref_put(x)):
         return "bytes %s differ from the documented format %s" % (c["put"], hexs(ref_put(x)))
+    if x <= 0xFFFFFFFF and c.get("put32") != hexs(ref_put(x)):
+        return "32-bit writer's bytes %s differ from the documented format %s" % (c.get("put32"), hexs(ref_put(x)))
     return None
 
 
